@@ -247,8 +247,29 @@ def _real_joblib_run(plan, binf, out, W):
     return {"err": err}
 
 
+def _count_io(plan):
+    """Sequential pre-pass in a forked process: number of file-touching lines each task executes."""
+    from sim.proc import run_child
+
+    def child(report):
+        base = new_scratch("c06cnt")
+        try:
+            report({"io_counts": _run(dict(plan, count_only=True), base)})
+        finally:
+            rm_scratch(base)
+
+    msgs, _ = run_child(child, timeout=600)
+    for m in msgs:
+        if "io_counts" in m:
+            return {int(k): v for k, v in m["io_counts"].items()}
+    return {}
+
+
 def sweep_plans(tier, verif_seed):
-    """A few configurations are additionally executed under real joblib (fidelity of the stub)."""
+    """(i) A few configurations are additionally executed under real joblib (fidelity of the stub).
+    (ii) Hold-point sweeps: for seeded base configurations, EVERY file-touching line of EVERY task is used once
+    as the point at which that task is parked until all other workers have finished (enumeration of the
+    hold-point axis inside seeded choice of everything else)."""
     from sim.common import run_seed
     n = {"quick": 2, "thorough": 10}[tier]
     for i in range(n):
@@ -258,6 +279,26 @@ def sweep_plans(tier, verif_seed):
         p["ns"] = min(p["ns"], 20000)
         p["real_joblib"] = True
         yield p
+    nbase = {"quick": 1, "thorough": int(os.environ.get("VERIF_C06_SWEEPS", "8"))}[tier]
+    for b in range(nbase):
+        s = run_seed(verif_seed, PROP + "-hold", b)
+        p = gen_plan(s, tier)
+        r = rng_of(s ^ 0xBEEF)
+        p.update({"append": False, "rerun": False, "nproc": r.choice([2, 2, 3, 4]), "nap": min(p["nap"], 32), "default_k": False,
+                  "ntr_pad": min(p["ntr_pad"], min(p["nap"], 32)), "reject": False, "form": "bin", "nbatch_default": False,
+                  "p_switch": 0.0, "victim": None, "order": None, "io_mode": False, "trace": None})
+        if p["nbatch"] > 8192:
+            p["nbatch"] = 4096
+        # two to three batches per worker so that every worker has seams of its own
+        stride = p["nbatch"] - 2 * T
+        p["ns"] = min(40000, max(1500, p["nproc"] * r.choice([1, 2, 2, 3]) * stride + r.randrange(0, stride)))
+        p["saturate"] = [[max(0, min(p["ns"] - 2, (p["ns"] // p["nproc"]) - 10)), min(p["ns"], (p["ns"] // p["nproc"]) + 40), 0.5]] if r.random() < 0.7 else []
+        counts = _count_io(p)
+        cand = [(t, e) for t in sorted(counts) for e in range(counts[t])]
+        if tier == "quick":
+            cand = sorted(r.sample(cand, min(len(cand), 24)))
+        for t, e in cand:
+            yield dict(p, delay={"where": "abs", "task": t, "at": e}, sweep_of=b)
 
 
 def run_plan(plan):
@@ -309,6 +350,11 @@ def _run(plan, base):
             n_in.append(int(np.sum(lab != 3)))
         W["n_inside"] = min(n_in)
     nc_out = nap if plan["drop_sync"] else nap + 1
+    if plan.get("count_only"):
+        od = base / "out_cnt"
+        od.mkdir()
+        rp = _sim_run(plan, binf, od / "destriped.bin", plan["nproc"], False, W, {"count_io": True})
+        return {} if rp["err"] else rp["io_counts"]
     log = []
     stats = {"faults": {}, "probes": {}, "outcomes": {}, "distinct": [], "steps": 0, "config": {}}
     viol = None
@@ -366,7 +412,12 @@ def _run(plan, base):
                     offset = 0          # plain re-run into the same place: nothing of the earlier run may survive
                     first_bytes = b""
                     probe("rerun_over_earlier_output")
-            if tag == "sim" and plan.get("delay") and nproc > 1 and not plan["append"] and not plan.get("rerun") and schedule.get("trace") is None:
+            if tag == "sim" and plan.get("delay") and plan["delay"].get("where") == "abs" and nproc > 1 and schedule.get("trace") is None:
+                # hold-point sweep: the task and the index of its file-touching line are given explicitly
+                schedule = dict(schedule, delay={"task": plan["delay"]["task"], "at": plan["delay"]["at"]})
+                probe("one_worker_held_at_a_file_touching_line")
+                probe("hold_point_sweep_plans")
+            elif tag == "sim" and plan.get("delay") and nproc > 1 and not plan["append"] and not plan.get("rerun") and schedule.get("trace") is None:
                 pre = base / "out_pre"
                 pre.mkdir()
                 rp = _sim_run(plan, binf, pre / "destriped.bin", nproc, False, W, {"count_io": True})
